@@ -25,7 +25,9 @@ LEVEL_TEXT = ("Lean, for every plan and every magnitude: a conversion that retur
               "fundamental dimension to and from its SI unit, quick: a 60-pair subset) and checks the coefficient against the C09 "
               "size certificate (itself re-checked by the kernel). The path search is proved sound for every graph and state "
               "(findPath_sound) and with it every directly settled conversion is exact in every state reached by unit operations "
-              "and size-consistent declarations (convert_direct_exact, C05.direct_conversion_exact; graphs without offsets). "
+              "and size-consistent declarations (convert_direct_exact, C05.direct_conversion_exact; graphs without offsets); so is every conversion between "
+              "SIMPLE units - products of powers of prefixed base units of fundamental, independent dimensions with matching "
+              "multiplicities - through _replace_factors/_match_factors/_cancel_factors/_inline_paths (convert_simple_exact). "
               "The factor-matching planner as a whole is NOT proved sound - it is a heuristic "
               "that is wrong outside a fragment - so this check is partial: the model of the planner is tied to the code by "
               "differential execution (plans compared structurally), and the exact-size oracle runs on the real library over the "
@@ -41,6 +43,7 @@ THEOREMS = [
     "Measured.C04.value_determined_by_coefficient", "Measured.C04.convert_value",
     "Measured.Obligations.family_conversions_exact",
     "Measured.findPath_sound", "Measured.convert_direct_exact", "Measured.C05.direct_conversion_exact",
+    "Measured.convert_simple_exact", "Measured.C05.simple_conversion_exact", "Measured.C05.single_factor_conversion_exact",
 ]
 LEAN_TARGETS = ["Props.C04", "Props.C05", "Obligations.C04", "Obligations.C09"]
 THOROUGH_TARGETS = ["ObligationsFull.C04Full"]
